@@ -7,7 +7,8 @@
 // longer-lived context than the worker's, c13_handoff.go; and on the built binary with the group context
 // cancelled by a sibling's failure, c13_daemon.go).  C08 builds the daemon binary from the
 // working tree, runs it on real FIFOs and injects each failure cause and signal, idle and
-// under sustained audit load, observing exit status and time-to-exit.
+// under sustained audit load, observing exit status and time-to-exit; also with the optional workers switched on
+// (-metrics / -healthz / -audit-metrics) and HTTP clients in every connection state (c08_http.go).
 // No Coq case files: the tie to the model is the generated table Gen/Blocking.v (one
 // scenario per kind of row) plus these observations.
 package main
@@ -36,6 +37,7 @@ type result struct {
 	Detail     string `json:"detail,omitempty"`
 	HarnessErr string `json:"harness_problem,omitempty"`
 	FailKey    string `json:"fail_key,omitempty"`
+	SetupMs    int64  `json:"setup_ms,omitempty"` // optional-worker scenarios: time from the daemon's start to the injection
 }
 
 type replayDoc struct {
@@ -72,6 +74,13 @@ func describe(r result) string {
 			return fmt.Sprintf("worker in state %s (%s) did not return within %v of the cancellation", r.Scenario, r.Variant, c13Bound)
 		}
 		return fmt.Sprintf("worker in state %s (%s) delivered %d item(s) after it had returned", r.Scenario, r.Variant, r.After)
+	}
+	if isHTTPVariant(r.Variant) {
+		fl, st := splitHTTPVariant(r.Variant)
+		if !r.Returned {
+			return fmt.Sprintf("daemon with its optional workers on (flag valuation %s) still running %v after %s while its HTTP clients were in state %q: a worker of the errgroup did not return", fl, c08Bound, r.Scenario, st)
+		}
+		return fmt.Sprintf("daemon with its optional workers on (flag valuation %s, HTTP clients %q) exited with status 0 after failure %s", fl, st, r.Scenario)
 	}
 	if !r.Returned {
 		return fmt.Sprintf("daemon still running %v after %s (%s)", c08Bound, r.Scenario, r.Variant)
@@ -119,7 +128,10 @@ func main() {
 		runC13(sum, tmp, reps, seed)
 		sum.Notes = append(sum.Notes, c13Notes...)
 	case "C08":
-		sum = hutil.NewSummary("C08", seed, "non-trivial: the daemon was started from the built binary and the failure cause was injected (idle, or after the audit writer had been flooding the pipe)")
+		sum = hutil.NewSummary("C08", seed, "non-trivial: the daemon was started from the built binary and the failure cause was injected (idle, or after the audit writer had been flooding the pipe; "+
+			"scenarios opt:<flags>:<clients>: the daemon started with a flag valuation that switches optional workers on - HTTP server for /metrics and /readyz, its stop worker, the audit.log ticker - and HTTP clients "+
+			"in the named state when the cause is injected: none, fresh connection, idle keep-alive, request half sent, pipelined requests whose responses nobody reads / are read slowly (handler blocked in Write), 40 connections of all kinds; "+
+			"plus the HTTP worker's own failure: port taken))")
 		reps := *n
 		if reps <= 0 {
 			reps = 1
@@ -185,6 +197,9 @@ func doReplay(path, tmp string) int {
 		reps := 1
 		if racyVariant(doc.Scenario, doc.Variant) {
 			reps = 12 // where the sshd worker is when its sibling fails is the scheduler's choice
+		}
+		if isHTTPVariant(doc.Variant) && racyHTTP(doc.Variant) {
+			reps = 6 // whether a handler is inside Write at the moment of the stop cause is the scheduler's choice
 		}
 		for i := 0; i < reps; i++ {
 			r := runC08Scenario(bin, filepath.Join(tmp, fmt.Sprintf("replay%d", i)), doc.Scenario, doc.Variant, i)
